@@ -14,9 +14,11 @@ _FRAME_FS = ("forall(lambda rel: implies(not ISABS(rel) and not UNDER(%s, common
              " and disk_read(PJOIN(dataset_root, rel)) == old(disk_read(PJOIN(dataset_root, rel)))), rel='U')" % _D)
 _FRAME_CERT = ("forall(lambda rel: implies(not UNDER(%s, common, rel) and not ANCREL(rel, %s),"
                " cert(dataset_root, rel) == old(cert(dataset_root, rel))), rel='U')" % (_D, _P0))
-_DOCS = ("forall(lambda rel: DOC_AT(dataset_root, rel) is old(DOC_AT(dataset_root, rel)) or fresh(DOC_AT(dataset_root, rel)), rel='U')")
+_DOCS = ("forall(lambda rel: implies(dstate(PJOIN(dataset_root, rel)) == 2,"
+         " (old(dstate(PJOIN(dataset_root, rel))) == 2 and DOC_AT(dataset_root, rel) is old(DOC_AT(dataset_root, rel)))"
+         " or DOC_AT(dataset_root, rel) >= old_next_ref()), rel='U')")
 _RSL_OK = [
-    f"forall(lambda rel: implies(LISTFILE(dataset_root, rel), DOC_AT(dataset_root, rel) is not {_RSL}), rel='U')",
+    f"reveal R_DOCS,Q_DISK: forall(lambda rel: implies(LISTFILE(dataset_root, rel), DOC_AT(dataset_root, rel) is not {_RSL}), rel='U')",
     f"{_RSL}.relative_path_self == {_P0}",
     f"{_RSL}.number_of_examples == lsum({_RSL}.shard_files, 'number_of_examples')",
     f"forall(lambda i: implies(0 <= i and i < len({_RSL}.shard_files), VALID_ShardInfo({_RSL}.shard_files[i])))",
@@ -29,7 +31,7 @@ contract(MM, "merge_shard_infos", props=[],
               "forall(lambda j: implies(0 <= j and j < len(updates), VALID_ShardListInfo(updates[j]) and NPARTS(UP(updates[j])) >= common + 1))",
               "forall(lambda i, j: implies(0 <= i and i < j and j < len(updates), UP(updates[i]) != UP(updates[j])))",
               "hashes == galgs()",
-              "DISK_OK(dataset_root)", "GINV(dataset_root)"],
+              "hide Q_DISK: DISK_OK(dataset_root)", "hide Q_GINV: GINV(dataset_root)"],
     # instances of the (audited) path lemmas for the paths of the updates
     defs=["forall(lambda j: use_path(UP(updates[j]), common))",
           "forall(lambda j: use_path(UP(updates[j]), common + 1, common))"],
@@ -38,10 +40,11 @@ contract(MM, "merge_shard_infos", props=[],
         f"fresh(result) and UP(result) == {_P0}",
         ("C04", "INFO_EXACT(dataset_root, galgs(), result)"),
         ("C04", f"reveal CERTDEF: cert(dataset_root, {_P0})"),
-        ("C04", "reveal DISKKEEP: DISK_OK(dataset_root)"), ("C04", "reveal GINVKEEP: GINV(dataset_root)"),
-        _FRAME_FS, "reveal CERTDEF: " + _FRAME_CERT,
+        ("C04", "reveal DISKKEEP,J_DISK: hide R_DISK: DISK_OK(dataset_root)"),
+        ("C04", "reveal GINVKEEP,J_GINV,J_DISK: hide R_GINV: GINV(dataset_root)"),
+        "reveal I_FS: hide R_FS: " + _FRAME_FS, "reveal CERTDEF,I_CERT: hide R_CERT: " + _FRAME_CERT,
         # list documents are the ones parsed before or new ghost objects
-        _DOCS,
+        "reveal I_DOCS: hide R_DOCS: " + _DOCS,
     ],
     raises={"ValueError": ["True"]},
     locals_={"recursively_update": "dict:list:ref:ShardListInfo", "_dc1": "dict:ref:ShardListInfo"},
@@ -81,8 +84,8 @@ contract(MM, "merge_shard_infos", props=[],
             f"forall(lambda g: implies(g in {_M}, UP({_M}[g]) == PJOIN(PJOIN({_D}, g), 'shards_list.json')), g='U')",
             f"forall(lambda g: implies(g in {_M}, INFO_EXACT(dataset_root, galgs(), {_M}[g])), g='U')",
             f"forall(lambda g: implies(g in {_M}, cert(dataset_root, UP({_M}[g]))), g='U')",
-            "DISK_OK(dataset_root)", "GINV(dataset_root)",
-            _FRAME_FS, _FRAME_CERT, _DOCS,
+            "reveal Q_DISK: hide I_DISK: DISK_OK(dataset_root)", "reveal Q_GINV,Q_DISK: hide I_GINV: GINV(dataset_root)",
+            "reveal R_FS: hide I_FS: " + _FRAME_FS, "reveal R_CERT: hide I_CERT: " + _FRAME_CERT, "reveal R_DOCS: hide I_DOCS: " + _DOCS,
             f"len({_RSL}.children_shard_lists) == 0",
         ] + _RSL_OK,
             end_lemmas=[
@@ -94,17 +97,23 @@ contract(MM, "merge_shard_infos", props=[],
                 # results of earlier steps live in other directories: their files and certificates are untouched
                 f"forall(lambda g: implies(g in {_M} and g != _dc1_directory, not UNDER(PJOIN({_D}, _dc1_directory), common + 1, UP({_M}[g]))"
                 f"   and not ANCREL(UP({_M}[g]), PJOIN(PJOIN({_D}, _dc1_directory), 'shards_list.json'))), g='U')",
-                f"forall(lambda g: implies(g in {_M} and g != _dc1_directory,"
+                f"reveal R_FS,R_CERT: forall(lambda g: implies(g in {_M} and g != _dc1_directory,"
                 f"   dstate(PJOIN(dataset_root, UP({_M}[g]))) == iter_start(dstate(PJOIN(dataset_root, UP({_M}[g]))))"
                 f"   and disk_read(PJOIN(dataset_root, UP({_M}[g]))) == iter_start(disk_read(PJOIN(dataset_root, UP({_M}[g]))))"
                 f"   and cert(dataset_root, UP({_M}[g])) == iter_start(cert(dataset_root, UP({_M}[g])))), g='U')",
+                f"cert(dataset_root, PJOIN(PJOIN({_D}, _dc1_directory), 'shards_list.json'))",
+                f"INFO_EXACT(dataset_root, galgs(), {_M}[_dc1_directory])",
                 # what lies outside D (and is not above it) lies outside D/g (and is not above it)
                 f"forall(lambda rel: implies(not UNDER({_D}, common, rel), not UNDER(PJOIN({_D}, _dc1_directory), common + 1, rel)), rel='U')",
-                f"forall(lambda rel: implies(not UNDER({_D}, common, rel) and not ANCREL(rel, {_P0})"
-                f"   and axinst(path_inst(PJOIN({_D}, _dc1_directory), common, NPARTS(rel) - 1, 'shards_list.json')"
-                f"        and path_inst({_D}, common, NPARTS(rel) - 1, _dc1_directory) and path_inst({_D}, common, NPARTS(rel) - 1, 'shards_list.json')"
-                f"        and path_inst(PJOIN(PJOIN({_D}, _dc1_directory), 'shards_list.json'), common, NPARTS(rel) - 1)"
-                f"        and path_inst({_P0}, common, NPARTS(rel) - 1)),"
+                # the first `common` components of D/g/shards_list.json and of D/shards_list.json are D
+                f"implies(axinst(path_inst(PJOIN({_D}, _dc1_directory), common, common - 1, 'shards_list.json')"
+                f"     and path_inst({_D}, common, common - 1, _dc1_directory) and path_inst({_D}, common, common - 1, 'shards_list.json')),"
+                f"  PPREFIX(PJOIN(PJOIN({_D}, _dc1_directory), 'shards_list.json'), common) == {_D} and PPREFIX({_P0}, common) == {_D})",
+                # ... so their shorter prefixes coincide
+                f"forall(lambda rel: implies(NPARTS(rel) >= 1 and NPARTS(rel) <= common"
+                f"   and axinst(path_inst(PJOIN(PJOIN({_D}, _dc1_directory), 'shards_list.json'), common, NPARTS(rel) - 1) and path_inst({_P0}, common, NPARTS(rel) - 1)),"
+                f"   PPREFIX(PJOIN(PJOIN({_D}, _dc1_directory), 'shards_list.json'), NPARTS(rel) - 1) == PPREFIX({_P0}, NPARTS(rel) - 1)), rel='U')",
+                f"forall(lambda rel: implies(not UNDER({_D}, common, rel) and not ANCREL(rel, {_P0}),"
                 f"   not ANCREL(rel, PJOIN(PJOIN({_D}, _dc1_directory), 'shards_list.json'))), rel='U')",
             ],
             lemmas=[f"forall(lambda g, i: use_path(UP({_G}[g][i]), common), g='U')",
@@ -118,7 +127,10 @@ contract(MM, "merge_shard_infos", props=[],
             f"0 <= _k and _k <= dictlen(merged) and len({_RSL}.children_shard_lists) == _k",
             f"forall(lambda j: implies(0 <= j and j < _k, {_RSL}.children_shard_lists[j] is merged[dictkey(merged, j)]))",
             f"{_RSL}.number_of_examples == lsum({_RSL}.shard_files, 'number_of_examples') + lsum({_RSL}.children_shard_lists, 'number_of_examples')",
-            "DISK_OK(dataset_root)", "GINV(dataset_root)",
+            "reveal I_DISK: hide J_DISK: DISK_OK(dataset_root)", "reveal I_GINV,I_DISK: hide J_GINV: GINV(dataset_root)",
+            f"forall(lambda rel: implies(LISTFILE(dataset_root, rel), DOC_AT(dataset_root, rel) is not {_RSL}), rel='U')",
+            f"forall(lambda g: implies(g in merged, INFO_EXACT(dataset_root, galgs(), merged[g])), g='U')",
+            f"forall(lambda g: implies(g in merged, cert(dataset_root, UP(merged[g]))), g='U')",
             f"forall(lambda g: implies(g in merged and axinst(path_inst(PJOIN({_D}, g), common, common - 1, 'shards_list.json')"
             f"      and path_inst({_D}, common, common - 1, g) and path_inst({_D}, common, common - 1, 'shards_list.json')"
             f"      and path_inst(UP(updates[0]), common)),"
